@@ -10,11 +10,13 @@ import (
 	"encoding/json"
 	"fmt"
 	"os"
+	"strings"
 	"time"
 
 	"github.com/semafind/semadb/models"
 	sl "semaverif/harness/shardlib"
 
+	"semaverif/engine/faultx"
 	"semaverif/engine/harness"
 	"semaverif/engine/pool"
 	"semaverif/engine/seqx"
@@ -63,6 +65,11 @@ func symbols() *sl.Symbols {
 		sl.Op{Name: "del1", Kind: "del", Ids: []int{1}},
 		sl.Op{Name: "del2,3", Kind: "del", Ids: []int{2, 3}},
 		sl.Op{Name: "ins1(again)", Kind: "ins", Ids: []int{1}, Docs: []sl.Doc{doc(4)}},
+		// the same batches meeting a storage error after the index work is done
+		// (the counters are written last): they must leave no trace in any cache
+		sl.Op{Name: "del2,3 !storage-fault", Kind: "del", Ids: []int{2, 3}},
+		sl.Op{Name: "ins6 !storage-fault", Kind: "ins", Ids: []int{6}, Docs: []sl.Doc{doc(6)}},
+		sl.Op{Name: "upd3(text,vec) !storage-fault", Kind: "upd", Ids: []int{3}, Docs: []sl.Doc{{"txt": "quick zebra", "vec": stored[7]}}},
 	)
 }
 
@@ -113,6 +120,9 @@ func (s *system) Apply(raw json.RawMessage) []seqx.Viol {
 	var ref sl.OpRef
 	json.Unmarshal(raw, &ref)
 	op, _ := s.syms.Get(ref.Name)
+	if strings.HasSuffix(op.Name, "!storage-fault") {
+		return s.applyFaulty(op)
+	}
 	exp := s.m.Apply(op)
 	tag := ""
 	if exp.Reject {
@@ -141,6 +151,48 @@ func (s *system) Apply(raw json.RawMessage) []seqx.Viol {
 	} else {
 		fmt.Fprintf(os.Stderr, "@@J-OK %s\n", op.Name)
 		s.applied = append(s.applied, op)
+	}
+	return nil
+}
+
+// applyFaulty runs a batch with an injected storage error on the file-backed
+// instances: the last Put the batch issues on the points bucket for updates,
+// the counter write for inserts and deletes.  The model does not change; the
+// in-memory backend (no rollback, successful batches only) sits this one out.
+func (s *system) applyFaulty(op sl.Op) []seqx.Viol {
+	fmt.Fprintf(os.Stderr, "@@J-APPLY %s expect-reject\n", op.Name)
+	noop := true
+	for _, id := range op.Ids {
+		if _, ok := s.m.Docs[id]; ok == (op.Kind != "ins") {
+			noop = false
+		}
+	}
+	for _, mb := range s.members {
+		if mb.in.Proxy == nil {
+			continue
+		}
+		f := &faultx.Fault{Tx: 1, Bucket: "internal", Kind: faultx.KPut, Ordinal: 1, Action: "fail"}
+		if op.Kind == "upd" {
+			f = &faultx.Fault{Tx: 1, Bucket: "points", Kind: faultx.KPut, Ordinal: 3, Action: "fail"}
+		}
+		mb.in.Proxy.Arm(f, mb.in.Path+".snap")
+		got := mb.in.ApplySettled(op)
+		fired := mb.in.Proxy.Fired()
+		mb.in.Proxy.Arm(nil, "")
+		if fired && got.Err == nil {
+			return []seqx.Viol{{Sig: "storage-error-swallowed", Detail: mb.name + ": " + op.Name + " met an injected storage error but reported success"}}
+		}
+		if !fired && got.Err == nil && !noop {
+			// the batch did not reach the faulted operation although it had work to do
+			continue
+		}
+		if sig, detail := sl.LateViolation(op, got); sig != "" {
+			return []seqx.Viol{{Sig: sig, Detail: mb.name + ": " + detail}}
+		}
+	}
+	fmt.Fprintf(os.Stderr, "@@J-FAILED %s\n", op.Name)
+	if len(op.Ids) > 1 {
+		s.terminal = true
 	}
 	return nil
 }
